@@ -43,8 +43,9 @@ CLAIMS = {
             "table (kd-tree shrinking ranges, Bezier one-shot retry, stratified tian2019 re-entry); A5: only std::exception "
             "types are thrown; shape of guards: NaN-absorbing clamp before acos, release-active arity checks of per-section and "
             "input-indexed tables, sibling models agree on their guards; DIV.guard: in the model functions no floating-point division has a "
-            "denominator that vanishes at depth zero / on the ridge / on the slab surface or trench line / where a laterally varying bound reaches "
-            "zero or two of them coincide, unless a controlling condition excludes it. Finiteness of values in general is not decided",
+            "denominator that vanishes at depth zero / at the planet's centre / on the ridge / on the slab surface or trench line / where a laterally "
+            "varying bound reaches zero or two of them coincide, unless a controlling condition excludes it (model functions and the gravity / "
+            "coordinate-system models reachable from a query). Finiteness of values in general is not decided",
             "§3.8, §4 C13"),
     "C14": ("static effect/alias analysis + parallel-loop discipline",
             "PURE over the query path (no shared write => no data race) and PAR on gwb-grid's parallel_for (disjoint affine "
@@ -55,7 +56,8 @@ CLAIMS = {
             "and the file's seed entry), PURE (the draw is the only state a query touches), same-index rule for per-composition "
             "tables, size-normalisation shape under exactly its flag, single shared bound broadcast with its value; QUAT: orientations blended "
             "between two sections are mat3_cast(slerp(quat_cast, quat_cast, f)), mat3_cast is a proper rotation on unit quaternions, quat_cast "
-            "inverts it on all four branches, slerp stays on the unit sphere (identity) and its linear short cut is of rounding size; thorough: "
+            "inverts it on all four branches, slerp stays on the unit sphere (identity) and its linear short cut is of rounding size; Euler-angle "
+            "basis matrices are proper rotations for all angles, the 3x3 product is the matrix product; thorough: "
             "symbolic proof that the generated matrices satisfy R*R^T=I, det R=+1",
             "§3.12, §3.6, §4 C15"),
     "C16": ("forwarding (argument provenance) analysis",
@@ -76,7 +78,8 @@ CLAIMS.update({
             "LAYOUT L4 for gwb-grid (output offsets -> data_set slots, dataSetInfo, filter_vtu_mesh literals), same-index node "
             "provenance, PAR on the parallel callables and the pool, structure of the mesh filter (both per-cell loops cover all vertices), "
             "base64 length of appended blocks = 4*ceil(n/3) (proof over residues), Cartesian grid: node positions and VTK cell "
-            "connectivity as closed forms of the loop indices. The chunk/annulus/sphere generators are decided only for their depth field",
+            "connectivity as closed forms of the loop indices; sphere grid: bilinear block patch (partition of unity, corners, edges) and "
+            "projection R*p/|p|. The chunk and annulus generators and the merging of sphere blocks are decided only for their depth field",
             "§3.2, §3.11, §4 C18"),
 })
 
@@ -103,14 +106,16 @@ CLAIMS.update({
             "SIB over all replicated model classes with a frozen table of explained differences, R1, G4/G2 (inclusive two-sided range "
             "guard), N1 (sentinel overrides: tested variable = replaced variable, world's constant / adiabat, no dead override), closed "
             "forms of uniform/adiabatic/linear, cooling models, Gaussian plume, smooth composition blend; local depth bounds used once "
-            "defined (DEP.surfaces.local); distance and velocity of the cooling age from one ridge candidate. Chapman, mass-conserving, "
-            "tian2019 recipes are not decided",
+            "defined (DEP.surfaces.local); distance and velocity of the cooling age from one ridge candidate; one source per physical parameter "
+            "inside a model (PARAM.source). Chapman, mass-conserving, tian2019 recipes are not decided",
             "§3.5, §3.6, §4 C05"),
-    "C06": ("normalised membership relations + call-site agreement + sibling cross-check",
+    "C06": ("normalised membership relations + call-site agreement + sibling cross-check + symbolic evaluation of the segment step",
             "slab/fault membership predicates over (distance from plane, distance along plane), inclusive depth gate, agreement of the "
             "two call sites of the curved-planes kernel and of the starting radius, unswapped hand-over up to World::distance_to_plane, "
-            "per-section tables read only through cur+f*(next-cur) inside the kernel, slab/fault sibling table. The line/arc "
-            "construction itself is not decided",
+            "per-section tables read only through cur+f*(next-cur) inside the kernel, slab/fault sibling table; SEG.line / SEG.arc: one "
+            "segment step of the slab-frame kernel equals the planar construction (straight line: computer-algebra identity; circular arc: "
+            "14 symbolic paths incl. probes just outside the rounding guards, 40-digit zero tests), SEG.frame: rotated axis = u(u.v)+-u x v, "
+            "common origin of the projections. Closest point on the trench, spherical corrections and Newton search are not decided",
             "§3.5, §3.6, §3.9, §4 C06"),
     "C07": ("dependence-set analysis of culling bounds + structural coverage rules",
             "DEP: every depth cut-off / bounding box depends on all parameters the exact extent depends on (min depth, segment lengths "
@@ -122,7 +127,8 @@ CLAIMS.update({
     "C08": ("who-may-call + alias-wrapper shape + twin-block comparison + shift-degree abstract interpretation",
             "ONLY the clause 'a point described with longitude L or L+-360 gets the same answer': shape and exclusive use of the alias "
             "wrappers (every exit of the spherical branch tries both aliases), frozen list of alias-aware sites, point/alias twin blocks of "
-            "the ridge-distance routine identical under 1->2, periodic start value of the spherical Bezier search; plus translation invariance of the Cartesian polygon, "
+            "the ridge-distance routine identical under 1->2, alias longitude L+-2*pi per half-range at every alias site (ALIAS.shift), wrappers as truth tables over their paths, "
+            "periodic start value of the spherical Bezier search; plus translation invariance of the Cartesian polygon, "
             "signed-distance and ellipse kernels by a shift-degree abstract interpretation (SHIFT.translation) and the closed forms of the "
             "Point distance kernels. Invariance of the remaining kernels (real arithmetic) is not decided",
             "§3.5, §4 C08"),
@@ -151,7 +157,8 @@ CLAIMS.update({
             "models (T(0)=T_top, T(max depth)=T_bottom, every series term vanishes there) and of the linear models (by their verified "
             "form); (E) half space: convex combination with weight erfc(u>=0), dT/d(depth) and dT/d(age) of the documented sign. Bounds "
             "and monotonicity of the 100-term series, the mass-conserving and slab plate models are not decided; plus the necessary "
-            "conditions that features hand the local depth range to their models and that nothing is cached between queries",
+            "conditions that features hand the local depth range to their models, that a model uses one value per physical parameter "
+            "(PARAM.source) and that nothing is cached between queries",
             "§4 C20, §10.8"),
 })
 
